@@ -24,6 +24,24 @@ pub type Index = usize;
 
 const MAX_ANALYSIS_DURATION: Duration = Duration::from_secs(10);
 
+/// Verification hook: a pass budget that makes the time box fire after a
+/// chosen number of passes (`usize::MAX` = never).
+#[cfg(circomspect_verif)]
+pub mod verif_budget {
+    use std::sync::atomic::{AtomicUsize, Ordering};
+    pub(super) static VALUE_PASSES: AtomicUsize = AtomicUsize::new(usize::MAX);
+    pub(super) static DEGREE_PASSES: AtomicUsize = AtomicUsize::new(usize::MAX);
+    pub fn set_value_pass_budget(passes: usize) {
+        VALUE_PASSES.store(passes, Ordering::SeqCst);
+    }
+    pub fn set_degree_pass_budget(passes: usize) {
+        DEGREE_PASSES.store(passes, Ordering::SeqCst);
+    }
+    pub(super) fn exhausted(budget: &AtomicUsize, passes_done: usize) -> bool {
+        passes_done >= budget.load(Ordering::SeqCst)
+    }
+}
+
 #[derive(Clone)]
 pub enum DefinitionType {
     Function,
@@ -462,11 +480,24 @@ impl Cfg {
         }
         let mut rerun = true;
         let start = Instant::now();
+        #[cfg(circomspect_verif)]
+        let mut verif_passes = 0;
+        #[cfg(circomspect_verif)]
+        if verif_budget::exhausted(&verif_budget::DEGREE_PASSES, verif_passes) {
+            rerun = false;
+        }
         while rerun {
             // Rerun degree propagation if a single child node was updated.
             rerun = false;
             for basic_block in self.iter_mut() {
                 rerun = rerun || basic_block.propagate_degrees(&mut env);
+            }
+            #[cfg(circomspect_verif)]
+            {
+                verif_passes += 1;
+                if verif_budget::exhausted(&verif_budget::DEGREE_PASSES, verif_passes) {
+                    rerun = false;
+                }
             }
             // Bail out if analysis takes more than 10 seconds.
             if start.elapsed() > MAX_ANALYSIS_DURATION {
@@ -482,11 +513,24 @@ impl Cfg {
         let mut env = ValueEnvironment::new(&self.constants);
         let mut rerun = true;
         let start = Instant::now();
+        #[cfg(circomspect_verif)]
+        let mut verif_passes = 0;
+        #[cfg(circomspect_verif)]
+        if verif_budget::exhausted(&verif_budget::VALUE_PASSES, verif_passes) {
+            rerun = false;
+        }
         while rerun {
             // Rerun value propagation if a single child node was updated.
             rerun = false;
             for basic_block in self.iter_mut() {
                 rerun = rerun || basic_block.propagate_values(&mut env);
+            }
+            #[cfg(circomspect_verif)]
+            {
+                verif_passes += 1;
+                if verif_budget::exhausted(&verif_budget::VALUE_PASSES, verif_passes) {
+                    rerun = false;
+                }
             }
             // Bail out if analysis takes more than 10 seconds.
             if start.elapsed() > MAX_ANALYSIS_DURATION {
